@@ -476,6 +476,19 @@ func (e *kvElection) attemptPriorityTakeover(payloadBytes []byte) error {
 		return fmt.Errorf("current leader has equal or higher priority: %d >= %d", currentPayload.Priority, e.cfg.Priority)
 	}
 
+	// A takeover is an acquisition of its own and publishes a token that has
+	// never been in the record. The payload of the Create that just failed
+	// must not be reused: that Create may have been applied with only its
+	// acknowledgement lost, in which case its token is already in the history.
+	payloadBytes, err = json.Marshal(leadershipPayload{
+		ID:       e.cfg.InstanceID,
+		Token:    uuid.New().String(),
+		Priority: e.cfg.Priority,
+	})
+	if err != nil {
+		return fmt.Errorf("failed to marshal takeover payload: %w", err)
+	}
+
 	newRev, err := e.kv.Update(e.key, payloadBytes, entry.Revision())
 	if err != nil {
 		// Update failed - revision mismatch means someone else changed it
